@@ -327,6 +327,14 @@ theorem popOk_mem {q : List (Nat × α)} {v : Nat} (h : popOk q v = true) : ∃ 
     have h2 := List.find?_some hf
     exact ⟨_, h1, by simpa using h2⟩
 
+/-- a vertex the queue may pop is the source or has a tree entry: the loop's own
+`InternalError("expected vertex id … missing from solution")` branch is never taken -/
+theorem popped_has_entry {I : Inst α} {source : Nat} {s : SState α} (hinv : TreeInv I source s)
+    {v : Nat} (h : popOk s.queue v = true) : v = source ∨ (s.sol v).isSome := by
+  obtain ⟨p, hp, hpv⟩ := popOk_mem h
+  rw [← hpv]
+  exact hinv.queue_entry p hp
+
 /-- `runLoop` keeps the invariant for every schedule; and when there is a target, the final state
 (reached by popping the target) has a tree entry for it -/
 theorem runLoop_treeInv {I : Inst α} (hI : WF I) {source : Nat} {target : Option Nat} :
